@@ -614,6 +614,9 @@ pub fn observe_err(e: &reval::Error) -> OErr {
         E::DuplicateFunctionName(n) => OErr::Other(format!("DuplicateFunctionName({n})")),
         E::DuplicateRuleName(n) => OErr::Other(format!("DuplicateRuleName({n})")),
         E::ValueSerializationError(n) => OErr::Other(format!("ValueSerializationError({n})")),
+        // a variant added by a later version of reval
+        #[allow(unreachable_patterns)]
+        other => OErr::Other(format!("{other:?}")),
     }
 }
 
